@@ -280,6 +280,35 @@ def _shown_number(html_text: str) -> str:
     return m.group(0) if m else txt
 
 
+# exact metric / kitchen ratios (documented constants, written here independently of units.py): an exact amount in one of
+# these units has an exact rational amount in the others, which must be SHOWN exactly (fraction / integer), not as a
+# rounded decimal
+EXACT_RATIOS = {"ml": Fraction(1), "l": Fraction(1000), "tsp": Fraction(5), "tbsp": Fraction(15),
+                "g": Fraction(1), "kg": Fraction(1000)}
+EXACT_KIND = {"ml": "v", "l": "v", "tsp": "v", "tbsp": "v", "g": "m", "kg": "m"}
+
+
+def conversions_oracle(v: Any, unit: Any, out: str) -> Optional[str]:
+    import html as H
+    if unit is None or unit.lower() not in EXACT_RATIOS:
+        return None
+    u = unit.lower()
+    for li in re.findall(r"<li>(.*?)</li>", out, flags=re.S):
+        txt = H.unescape(re.sub(r"<[^>]*>", "", li)).replace("\u2044", "/").strip()
+        m = re.match(r"((?:\d+ )?\d+/\d+|\d+(?:\.\d+)?)\s*(.*)$", txt)
+        if not m:
+            return f"conversion entry {txt!r} of {v} {unit} has no number"
+        alt = m.group(2).strip().lower()
+        if alt in EXACT_RATIOS and EXACT_KIND[alt] == EXACT_KIND[u]:
+            want = Fraction(v) * EXACT_RATIOS[u] / EXACT_RATIOS[alt]
+            if want.denominator != 1 and want.denominator not in ALLOWED:
+                continue        # shown as a rounded decimal: the model comparison covers it (and F9 below 0.1)
+            w = oracle(want if want.denominator != 1 else int(want), m.group(1))
+            if w:
+                return f"{v} {unit} shown as {txt!r} in the conversion list: " + w
+    return None
+
+
 def make_shown_case(kind: str, v: Any, extra: Any) -> Case:
     import recipe_grid.recipe as R
     from recipe_grid.renderer import html as RH
@@ -300,6 +329,8 @@ def make_shown_case(kind: str, v: Any, extra: Any) -> Case:
     viol = oracle(true, shown)
     if viol:
         viol = f"{kind} {v!r} rendered as {out!r}: " + viol
+    if viol is None and kind == "qty" and not isinstance(v, float):
+        viol = conversions_oracle(v, extra[0], out)
     c = Case(input={"kind": kind, "v": coqio.num_json(v), "extra": extra, "true": coqio.num_json(true), "shown": shown}, coq_in=coq_in,
              coq_out=f"(Units.Ok {coqio.string(out)})", impl=out, violation=viol, nontrivial=True,
              tags=["shown-" + kind, type(v).__name__])
